@@ -73,8 +73,9 @@ def _write(b, bp, seq):
 
     s = io.BytesIO()
     datas, ms = [], []
-    for mi, tree, unk in seq:
-        m = bp.make(mi, tree)
+    for idx, (mi, tree, unk) in enumerate(seq):
+        # every other message is filled in place (containers / sub-messages mutated, parent never assigned)
+        m = bp.make(mi, tree, "inplace" if (idx + len(seq)) % 2 else "ctor")
         if unk:
             m = b.bp_class(mi.full_name)().parse(bytes(m) + unk)
         d = bytes(m)
